@@ -53,6 +53,143 @@ def exporters(ctx: Ctx):
     return out
 
 
+def _written_field(node):
+    """Name of the self-field a writing statement / call touches: self.F = .., self.F[k] = .., self.F.clear() ..."""
+    cands = []
+    if isinstance(node, ast.Assign):
+        cands = list(node.targets)
+    elif isinstance(node, (ast.AugAssign, ast.AnnAssign)):
+        cands = [node.target]
+    elif isinstance(node, ast.Expr) and isinstance(node.value, ast.Call):
+        cands = [node.value.func]
+    elif isinstance(node, ast.Call):
+        cands = [node.func]
+    elif isinstance(node, ast.Delete):
+        cands = list(node.targets)
+    for c in cands:
+        cur = c
+        while isinstance(cur, (ast.Subscript, ast.Attribute)):
+            if isinstance(cur, ast.Attribute) and isinstance(cur.value, ast.Name) and cur.value.id == "self":
+                return cur.attr
+            cur = cur.value
+    return None
+
+
+def derived_field_consistent(ctx: Ctx, cls: str, F: str):
+    """Is field F of class `cls` derived state that is provably kept consistent?  (ok, reason)
+    F counts as a consistent cache when (1) every store into it is either a reset (None / empty / .clear()) or a fill, (2) the
+    functions that fill it compute from the object's own fields only - no method call or attribute read on another repository
+    object, no walk over a container of records - and (3) every write, anywhere in the package, of a field those computations read
+    is made on `self` in a method of the same class hierarchy and is accompanied by a reset of F on every path through it."""
+    key = "derived:%s:%s" % (cls, F)
+    if key in ctx._cache:
+        return ctx._cache[key]
+    hier = [c for c in ctx.p.classes if cls in ctx.p.mro(c) or c in ctx.p.mro(cls)]
+    own_fields = {}
+    for c in hier:
+        own_fields.update(field_table(ctx, c))
+
+    def is_reset(site):
+        n = site.node
+        if site.how == "rebind" and isinstance(n, ast.Assign):
+            v = n.value
+            return (isinstance(v, ast.Constant) and v.value is None) or (isinstance(v, (ast.Dict, ast.List, ast.Set, ast.Tuple)) and not getattr(v, "elts", getattr(v, "keys", []))) or \
+                (isinstance(v, ast.Call) and call_name(v) in ("dict", "list", "set") and not v.args)
+        return site.how in ("call:clear", "delitem") or (site.how == "call:pop" and site.depth == 0)
+
+    sites = [x for x in mutation_sites(ctx, {F}) if not x.func.endswith(".__init__")]
+    if any(x.receiver != "self" or not any(x.func.startswith(c + ".") for c in hier) for x in sites):
+        out = (False, "%s is written from outside the class" % F)
+        ctx._cache[key] = out
+        return out
+    fills = [x for x in sites if not is_reset(x)]
+    resets = [x for x in sites if is_reset(x)]
+    if not fills:
+        out = (False, "no computing store into %s found" % F)
+        ctx._cache[key] = out
+        return out
+    # (2) what the fills read
+    deps, foreign = set(), []
+    seen = set()
+    todo = [x.func for x in fills]
+    while todo:
+        fq = todo.pop()
+        if fq in seen:
+            continue
+        seen.add(fq)
+        fi = ctx.fn(fq)
+        for n in walk_function(fi.node):
+            if isinstance(n, ast.Attribute) and isinstance(n.value, ast.Name) and n.value.id == "self" and isinstance(n.ctx, ast.Load) and n.attr != F:
+                if n.attr in own_fields:
+                    deps.add(n.attr)
+                    fld = own_fields[n.attr]
+                else:
+                    mq = next((ctx.p.lookup_method(c, n.attr) for c in hier if ctx.p.lookup_method(c, n.attr)), None)
+                    if mq:
+                        todo.append(mq)
+            # state of another object: x.method() / x.attr where x is a field of self holding an object, or a loop variable over a field
+            if isinstance(n, ast.Attribute) and isinstance(n.value, ast.Attribute) and isinstance(n.value.value, ast.Name) and n.value.value.id == "self" and n.value.attr in own_fields:
+                fld = own_fields[n.value.attr]
+                if fld.kind in ("REF", "OWNED") and not fld.container.startswith(("dict", "list", "set", "defaultdict", "{", "[")) and n.attr not in ("uri", "localpart", "namespace", "prefix"):
+                    foreign.append("%s: %s" % (short(fq), norm(n)))
+            if isinstance(n, (ast.For, ast.comprehension)) and isinstance(n.target, ast.Name):
+                it = n.iter
+                root = it
+                while isinstance(root, (ast.Call, ast.Attribute, ast.Subscript)):
+                    root = root.func if isinstance(root, ast.Call) else root.value
+                over_field = any(isinstance(x, ast.Attribute) and isinstance(x.value, ast.Name) and x.value.id == "self" and x.attr in own_fields and own_fields[x.attr].container.startswith(("list", "[")) for x in ast.walk(it))
+                if over_field:
+                    body = n.body if isinstance(n, ast.For) else []
+                    if any(isinstance(y, ast.Attribute) and isinstance(y.value, ast.Name) and y.value.id == n.target.id for b in body for y in ast.walk(b)) or isinstance(n, ast.comprehension):
+                        foreign.append("%s: walks %s and reads its elements" % (short(fq), norm(it)[:40]))
+    if foreign:
+        out = (False, "its value is computed from the state of other objects (%s), whose changes this object does not hear of" % "; ".join(sorted(set(foreign))[:2]))
+        ctx._cache[key] = out
+        return out
+    # (3) every writer of a dependency resets F
+    for w in mutation_sites(ctx, deps):
+        if w.func.endswith(".__init__") and w.receiver == "self":
+            continue
+        if w.how == "read-insert":
+            continue
+        if w.receiver != "self" or not any(w.func.startswith(c + ".") for c in hier):
+            out = (False, "%s, which it is computed from, is written on another object's behalf in %s (%s)" % (w.field, short(w.func), w.text[:40]))
+            ctx._cache[key] = out
+            return out
+        g = get_cfg(ctx, w.func)
+        rs = [r for r in resets if r.func == w.func]
+        rs_ids = set()
+        for r in rs:
+            try:
+                rs_ids.add(node_of(g, r.node).id)
+            except Exception:
+                pass
+        # a call on self to a method whose first statements reset F counts as a reset
+        for c in calls_in(ctx.fn(w.func).node):
+            if isinstance(c.func, ast.Attribute) and isinstance(c.func.value, ast.Name) and c.func.value.id == "self":
+                mq = next((ctx.p.lookup_method(k, c.func.attr) for k in hier if ctx.p.lookup_method(k, c.func.attr)), None)
+                if mq and any(r.func == mq and any(r.node is st or (isinstance(st, ast.Expr) and st.value is r.node) for st in ctx.fn(mq).node.body) for r in resets):
+                    try:
+                        rs_ids.add(node_of(g, c).id)
+                    except Exception:
+                        pass
+        try:
+            wn = node_of(g, w.node)
+        except Exception:
+            continue
+        if wn.id in rs_ids:
+            continue
+        before = g.find_path(g.entry, wn, avoid=lambda x: x.id in rs_ids, labels_excluded=("exc", "raise")) is not None
+        after = g.find_path(wn, g.exit, avoid=lambda x: x.id in rs_ids, labels_excluded=("exc", "raise")) is not None
+        if before and after:
+            out = (False, "%s writes %s (%s) on a path that never resets %s" % (short(w.func), w.field, w.text[:40], F))
+            ctx._cache[key] = out
+            return out
+    out = (True, "computed from %s only; every writer of those resets it" % sorted(deps))
+    ctx._cache[key] = out
+    return out
+
+
 @rule("C13", "C13.R1", "effect closure of every exporter: nothing reachable from the exported object is written", 20,
       decides="serialising, printing, converting, comparing, hashing, unifying and flattening cannot change content, record order or namespace declarations")
 def c13_r1(ctx: Ctx, rule, only=None):
@@ -75,8 +212,24 @@ def c13_r1(ctx: Ctx, rule, only=None):
         for (root, klass), es in sorted(bad.items()):
             chain = eff.explain(q, es[0])
             fq, node = s.sites[es[0]]
+            why = ""
+            if klass == "OTHER":
+                # a field outside content and declarations: acceptable when it is derived state that is provably kept consistent
+                verdicts = []
+                for e1 in es:
+                    fq1, node1 = eff.leaf_site(q, e1)
+                    ffi = ctx.p.functions.get(fq1)
+                    F = _written_field(node1)
+                    if ffi is None or not ffi.cls or F is None:
+                        verdicts.append((False, "not a write of an own field"))
+                        continue
+                    verdicts.append(derived_field_consistent(ctx, ffi.cls, F))
+                if verdicts and all(v[0] for v in verdicts):
+                    res.ob("%s: writes %s, derived state kept consistent (%s)" % (label, "; ".join(sorted({x[2] for x in es}))[:60], verdicts[0][1][:100]))
+                    continue
+                why = " [not accepted as a consistent cache: %s]" % next(v[1] for v in verdicts if not v[0])
             res.fail(rule.id, "export-writes::%s::%s::%s" % (q, klass, root.replace(HOP, ">")), ctx.loc(fq, node),
-                     "%s has a %s effect on %s (%s): %s" % (label, klass, root, "; ".join(sorted({x[2] for x in es}))[:120], " -> ".join(chain)),
+                     "%s has a %s effect on %s (%s): %s%s" % (label, klass, root, "; ".join(sorted({x[2] for x in es}))[:120], " -> ".join(chain), why),
                      "export the document, then export it again (or compare it with a twin built by the same calls): content, order or declarations differ")
     for k, why in ALLOWED.items():
         res.exceptions.append("%s allowed: %s" % (k, why))
@@ -1743,3 +1896,12 @@ def c09_r14(ctx: Ctx, rule):
 
 RULES.setdefault("C09", []).append(Rule("C09.R14", "flattened() leaves no trace on the document: its result is built from the current records at every call (C13.R1 restricted to flattened)", 1, c09_r14, "F-OWN",
                                         "records added to a bundle, or attributes added to a bundled record, after a first flattened() appear in the next one"))
+
+
+# ===================================================================================== C04.R11: comparing and hashing keep no stale state
+def c04_r11(ctx: Ctx, rule):
+    return c13_r1(ctx, rule, only=lambda q, label: label.endswith((".__eq__", ".__ne__", ".__hash__")))
+
+
+RULES.setdefault("C04", []).append(Rule("C04.R11", "comparing and hashing write nothing, except a cache that every writer of the compared fields resets (C13.R1 restricted to __eq__ / __ne__ / __hash__)", 10, c04_r11, "F-OWN",
+                                        "a == b and hash(a) are computed from the current content: a record changed after a first comparison does not keep its old identity"))
